@@ -40,6 +40,8 @@ impl CachedInfoset {
 
     /// Sample an action from the current strategy, caches between resets
     fn sample(&mut self) -> usize {
+        #[cfg(feature = "verif")]
+        crate::verif::jitter_held();
         if self.cached == 0 {
             #[cfg(feature = "verif")]
             crate::verif::site(self.verif_id.0, self.verif_id.1, &self.reg.strat);
